@@ -428,6 +428,11 @@ def run(ctx):
     # one chunk per worker: the work per case is small, so pool overhead is kept minimal
     # (the quick tier is ~7 s of CPU in total: it runs in-process, forking a pool costs more than it saves)
     nproc = par.NPROC if thorough else 1
+    if nproc > 1:
+        import gc
+
+        gc.collect()
+        gc.freeze()  # forked workers must not copy the parent's heap when their collector runs
     par.pmap_tally(direct_chunk, items, ctx.tally, nchunks=par.NPROC, nproc=nproc)
     ctx.log("direct layer done")
     par.pmap_tally(chunk_fn, cases, ctx.tally, nchunks=par.NPROC * 2, nproc=nproc)
